@@ -64,7 +64,7 @@ func runExec(w *world.World, l *driver.Loaded, spec *ExecSpec, ch sched.Chooser)
 	h := core.NewHasher()
 	h.Int(int(st.Sched.TraceHash))
 	roots := map[string]bool{}
-	for _, r := range ex.Roots {
+	for _, r := range w.OutcomePaths(ex.Roots) {
 		roots[r] = true
 	}
 	paths := make([]string, 0, len(roots))
@@ -121,8 +121,18 @@ func clip(s string, n int) string {
 // drives execution i (the tape while generating, the recorded decisions when
 // replaying); record receives the decisions consumed by execution i.
 func Execute(c *Case, chooser func(i int) sched.Chooser, record func(i int, mark bool), agg *core.Agg) (*failure, uint64, error) {
-	l, err := driver.LoadAll(c.World)
-	if err != nil {
+	loads := map[uint64]*driver.Loaded{}
+	load := func(seed uint64) (*driver.Loaded, error) {
+		if l, ok := loads[seed]; ok {
+			return l, nil
+		}
+		l, err := driver.LoadAllOrder(c.World, seed)
+		if err == nil {
+			loads[seed] = l
+		}
+		return l, err
+	}
+	if _, err := load(0); err != nil {
 		return nil, 0, core.Infra("%v", err)
 	}
 	log := core.NewHasher()
@@ -147,6 +157,13 @@ func Execute(c *Case, chooser func(i int) sched.Chooser, record func(i int, mark
 			} else {
 				// the identical decisions again
 				ch = core.ReplayTape(c.Execs[i].Tape)
+			}
+			l, err := load(spec.Ex.ParseSeed)
+			if err != nil {
+				return nil, 0, core.Infra("%v", err)
+			}
+			if spec.Ex.ParseSeed != 0 {
+				agg.Inc("fault.permuted_parse_order")
 			}
 			res, err := runExec(c.World, l, spec, ch)
 			if r == 0 {
@@ -308,7 +325,7 @@ func (e Engine) Run(t *core.Tape, opt core.RunOpt, agg *core.Agg) *core.Violatio
 }
 
 func (e Engine) run(t *core.Tape, opt core.RunOpt, agg *core.Agg) (*Case, *failure, uint64, error) {
-	w, _ := world.Generate(t, world.GenOpt{MinPkgs: 2, MaxPkgs: 7, Flat: true})
+	w, _ := world.Generate(t, world.GenOpt{MinPkgs: 2, MaxPkgs: 7, Flat: true, ReadFaults: true, LineDirectives: true, DirExclude: true})
 	k, rep := params(opt)
 	c := &Case{World: w}
 	c.Execs = append(c.Execs, ExecSpec{Label: "checker/sequential/all-roots", Ex: driver.Exec{Driver: "checker", Transport: "share", Roots: allRoots(w), Rerun: -1},
@@ -335,6 +352,9 @@ func (e Engine) run(t *core.Tape, opt core.RunOpt, agg *core.Agg) (*Case, *failu
 		spec := ExecSpec{Ex: driver.Exec{Driver: drv, Transport: "share", Roots: roots, Rerun: -1}, Sched: sc, Repeat: 1}
 		if drv == "vet" {
 			spec.Ex.Transport = "files"
+		} else if t.Chance(1, 2) {
+			// the standalone driver parses all files concurrently: position bases vary from run to run
+			spec.Ex.ParseSeed = uint64(1 + t.Draw(1<<20))
 		}
 		if j == 0 {
 			spec.Repeat = rep // one preempting schedule is also repeated identically
